@@ -749,7 +749,7 @@ pub fn run_execution(bodies: Vec<(ThreadKind, ThreadBody)>, chooser: &mut dyn Ch
         let running = inner.slots.iter().filter(|s| s.state == TState::Running).count();
         // deferred decision: nobody running, grace period since the last park elapsed
         if inner.need_supervisor && running == 0 && others_parked {
-            let quiet = inner.last_change.map(|t| now.duration_since(t) > Duration::from_millis(100)).unwrap_or(true);
+            let quiet = inner.last_change.map(|t| now.duration_since(t) > if IMPATIENT.load(Ordering::Acquire) { Duration::from_millis(20) } else { Duration::from_millis(100) }).unwrap_or(true);
             if quiet {
                 inner.need_supervisor = false;
                 inner.supervisor_deciding = true;
